@@ -66,6 +66,18 @@ def make_case(unit):
     else:
         spec = sim.CubeSpec(facets, w, ("sum",) + (("valid_counts",) if g.chance(0.5) else ()),
                             g.num(N))
+    if gen.stratum(ID, i, "hide", 3) == 0:
+        # hidden elements: removed from the display, still part of every total
+        from .. import transforms as T
+
+        o = sim.Oracle(spec)
+        nd = o.ndim
+        for key, d in ([("rows_dimension", 0)] if nd == 1 else
+                       [("rows_dimension", nd - 2), ("columns_dimension", nd - 1)]):
+            ids, _ = T.transform_ids(o, d)
+            if ids and g.chance(0.7):
+                els = T.random_hides(g, ids, p=1.0, renames=False)
+                tr.setdefault(key, {})["elements"] = els
     return {"template": template, "spec": sim.spec_to_dict(spec), "transforms": tr}
 
 
